@@ -604,6 +604,9 @@ def run(ctx) -> dict:
     # memoised conversion helpers must be keyed by strings only (0.0 / -0.0 share a slot)
     from .c05_purity import r05_7
     results.append(r05_7(ctx, counts))
+    # the lexical -> value mapping of timezone offsets keeps the sign of -00:MM
+    from .c11_datetime import r11_5
+    results.append(r11_5(ctx, counts))
     return {
         'results': results, 'counts': counts,
         'explanation':
